@@ -36,7 +36,7 @@ REQUIRED_LABELS = [
     "param_call_group", "string_delims_in_params", "async", "multiline_header", "brace_next_line", "block_comment_multiline",
     "container", "global_code", "len>15", "len>30", "len>60", "arrow_function", "anonymous_class", "local_class", "throws",
     "return_type_on_previous_line", "qualified_name", "ts_return_type", "decorator", "macro_block", "callback_arrow", "lambda",
-    "bare_block", "initialiser_block_after_method", "one_token_statement",
+    "bare_block", "initialiser_block_after_method", "one_token_statement", "multiline_header_aligned",
 ]
 
 
